@@ -20,8 +20,10 @@ def atom_array(name, shape, root=None, kind='real', offset=None):
     shape = tuple(R(s) for s in shape)
     off = offset or tuple(ZERO for _ in shape)
 
+    parts = tuple(name) if isinstance(name, tuple) else (name,)
+
     def fn(idx):
-        return Rat.atom((name,) + tuple(i + o for i, o in zip(idx, off)))
+        return Rat.atom(parts + tuple(i + o for i, o in zip(idx, off)))
     return Arr(shape, fn, kind, root=root)
 
 
@@ -34,6 +36,8 @@ class World:
         self.dim = DIM[meshcls]
         self.ctx = Ctx()
         self.interp = Interp(sm, self.ctx)
+        # _fsign is analysed on its own (C13.F8); inside stencils it is an opaque elementwise guard
+        self.interp.opaque_summaries[('advection', '_fsign')] = _fsign_summary
         self.symbolic = sizes is None
         self.uniform = uniform
         d = self.dim
@@ -48,8 +52,12 @@ class World:
             for k in range(d):
                 n = self.N[k].as_poly()
                 self.t.append(self.ctx.pos_symbol(AX[k], Poly.const(M), n + (1 - M)))
-        self.mesh = self._build_mesh()
+        self.pos_atoms = set()
+        self.nonneg_atoms = set()
         self._zcount = 0
+        self._vol = None
+        A.ABS_HOOK = _abs_hook_for(self)
+        self.mesh = self._build_mesh()
 
     # -- mesh -------------------------------------------------------------------------------
     def face_array(self, k):
@@ -316,3 +324,162 @@ def _bc_atoms(name, face, coef, shp):
     def fn(idx):
         return Rat.atom((name, face, coef) + tuple(idx[k] for k in keep))
     return Arr(shp, fn, 'real', root=f'{name}.{face}._{coef}')
+
+
+# ----------------------------------------------------------------------------------------------
+# sign reasoning under the documented mesh preconditions
+# ----------------------------------------------------------------------------------------------
+RADIAL = {'CylindricalGrid1D', 'SphericalGrid1D', 'CylindricalGrid2D', 'PolarGrid2D', 'CylindricalGrid3D', 'SphericalGrid3D'}
+
+
+def _world_sign_of(self, r):
+    """sign of a Rat under: faces strictly increasing; radial faces >= 0; angles >= 0;
+    sin(theta) > 0 on spherical grids; declared positive atoms.  '+','-','0' or None."""
+    from .alg import sign_by_increments, atom_key
+    r = R(r)
+    if r.coef == 0:
+        return '0'
+    sgn = 1 if r.coef > 0 else -1
+    strict = True
+    for f, e in r.fac:
+        s = self._poly_sign(f)
+        if s is None:
+            return None
+        if s == 'zero':
+            return '0'
+        if s in ('neg', 'nonpos') and e % 2:
+            sgn = -sgn
+        if s in ('nonneg', 'nonpos'):
+            if e < 0:
+                return None
+            strict = False
+    if not strict:
+        return None          # callers needing weak signs use weak_sign_of
+    return '+' if sgn > 0 else '-'
+
+
+def _world_weak_sign_of(self, r):
+    """'>=0', '<=0', '+', '-', '0' or None"""
+    r = R(r)
+    if r.coef == 0:
+        return '0'
+    sgn = 1 if r.coef > 0 else -1
+    strict = True
+    for f, e in r.fac:
+        s = self._poly_sign(f)
+        if s is None:
+            return None
+        if s == 'zero':
+            return '0'
+        if s in ('neg', 'nonpos') and e % 2:
+            sgn = -sgn
+        if s in ('nonneg', 'nonpos'):
+            if e < 0:
+                return None
+            strict = False
+    if strict:
+        return '+' if sgn > 0 else '-'
+    return '>=0' if sgn > 0 else '<=0'
+
+
+def _world_poly_sign(self, p):
+    from .alg import sign_by_increments, atom_key
+    cache = self.__dict__.setdefault('_sign_cache', {})
+    k = p.key()
+    if k in cache:
+        return cache[k]
+    chains = {}
+    pos = set(self.pos_atoms)
+    nonneg = set(self.nonneg_atoms)
+    for a in p.atoms():
+        key = atom_key(a)
+        if isinstance(key, tuple) and key:
+            if key[0] == 'f':
+                chains.setdefault(key[1], []).append((a, key[2]))
+            elif key[0] == 'pi' or key[0] == 'L':
+                pos.add(a)
+            elif key[0] == 'fn' and key[1] == 'sin' and self.meshcls == 'SphericalGrid3D':
+                pos.add(a)
+            elif key[0] in ('N',):
+                pos.add(a)
+    chain_lists = []
+    for ax, lst in chains.items():
+        # sort by index with the oracle
+        import functools
+
+        def cmp(x, y):
+            if self.ctx.eq(x[1], y[1]):
+                return 0
+            return -1 if self.ctx.lt(x[1], y[1]) else 1
+        lst = sorted(lst, key=functools.cmp_to_key(cmp))
+        ids = [a for a, _i in lst]
+        chain_lists.append(ids)
+        if (ax == 'x' and self.meshcls in RADIAL) or (ax in ('y', 'z') and self.meshcls in ('PolarGrid2D', 'CylindricalGrid3D', 'SphericalGrid3D') and _is_angle(self.meshcls, ax)):
+            nonneg.add(ids[0])
+    res = sign_by_increments(p, chain_lists, pos_atoms=pos, nonneg_atoms=nonneg)
+    cache[k] = res
+    return res
+
+
+def _is_angle(meshcls, ax):
+    if meshcls == 'PolarGrid2D':
+        return ax == 'y'
+    if meshcls == 'CylindricalGrid3D':
+        return ax == 'y'
+    if meshcls == 'SphericalGrid3D':
+        return ax in ('y', 'z')
+    return False
+
+
+def _abs_hook_for(world):
+    def hook(x):
+        try:
+            s = world.weak_sign_of(x)
+        except AnalysisError:
+            return None
+        if s in ('+', '>=0'):
+            return '+'
+        if s in ('-', '<=0'):
+            return '-'
+        if s == '0':
+            return '0'
+        return None
+    return hook
+
+
+World.sign_of = _world_sign_of
+World.weak_sign_of = _world_weak_sign_of
+World._poly_sign = _world_poly_sign
+
+
+def _world_activate(self):
+    A.ABS_HOOK = _abs_hook_for(self)
+    return self
+
+
+World.activate = _world_activate
+
+
+def _world_volume(self):
+    """Arr of cell volumes (interior-indexed) obtained by interpreting <Class>._getCellVolumes"""
+    if getattr(self, '_vol', None) is None:
+        self.activate()
+        v = self.interp.get_attr(self.mesh, 'cellvolume')
+        self._vol = snap(v)
+    return self._vol
+
+
+def _world_vol_at(self, P):
+    v = self.volume()
+    return v.at(tuple(p - 1 for p in P))
+
+
+World.volume = _world_volume
+World.vol_at = _world_vol_at
+
+
+def _fsign_summary(interp, args, kwargs):
+    x = args[0]
+    if isinstance(x, Rat):
+        return A.opaque_fn('fsign', x)
+    return Box(A.elementwise(interp.ctx, lambda v: A.opaque_fn('fsign', v), [x]))
